@@ -256,6 +256,13 @@ CLIP_SPECS = [
     ('unbounded-range-clipped-to-a-single-cell',
      {'sheets': [['Sheet1', {'A1': 5, 'A2': 7, 'A3': '=A1+A2'}]], 'names': {}, 'arrays': [], 'calc': None},
      'Sheet1!1:1', 5),
+    # the single cell an unbounded range clips to holds a formula that was never evaluated
+    ('unbounded-range-clipped-to-a-single-cell',
+     {'sheets': [['Sheet1', {'A1': 5, 'B1': '=A1+1', 'C1': '=SUM(B:B)+1'}]], 'names': {}, 'arrays': [],
+      'calc': None}, 'Sheet1!B:B', 6),
+    ('unbounded-range-clipped-to-a-single-cell',
+     {'sheets': [['Sheet1', {'A1': 5, 'A2': '=A1*2', 'A3': '=SUM(2:2)+1'}]], 'names': {}, 'arrays': [],
+      'calc': None}, 'Sheet1!2:2', 10),
     # a column right of the used area: nothing to clip to
     ('unbounded-range-outside-the-used-area',
      {'sheets': [['Sheet1', {'A1': 5, 'A2': 7, 'B1': 1, 'B2': 2}]], 'names': {}, 'arrays': [], 'calc': None},
@@ -278,6 +285,38 @@ def clip_edge_cases(ctx):
                           f'{want!r}', {'kind': 'clip', 'spec': spec, 'path': text, 'want': want, 'key': key})
 
 
+CONTEXT_SPECS = [
+    # an ordinary cell using IFERROR / IFNA / IF on a range feeds a CSE array formula: its value must not
+    # depend on whether it is first evaluated on its own or while the array formula is being computed
+    {'sheets': [['Sheet1', {'A1': 5, 'A2': 6, 'A3': 7, 'C1': '=IFERROR(A1:A3,-1)', 'C2': '=C1*100'}]],
+     'names': {}, 'arrays': [['Sheet1', 'E1:E3', '=A1:A3+C1']], 'calc': None},
+    {'sheets': [['Sheet1', {'A1': 1, 'A2': '#N/A', 'A3': 3, 'C1': '=IFNA(A1:A3,9)', 'C2': '=C1+1'}]],
+     'names': {}, 'arrays': [['Sheet1', 'E1:E2', '=A1:A2*C1']], 'calc': None},
+    {'sheets': [['Sheet1', {'A1': 2, 'A2': 0, 'B1': 10, 'B2': 20, 'C1': '=SUM(A1:A2*B1:B2)', 'C2': '=C1&"x"'}]],
+     'names': {}, 'arrays': [['Sheet1', 'E1:E2', '=A1:A2+C1']], 'calc': None},
+]
+
+
+def context_books(ctx, rng):
+    for spec in CONTEXT_SPECS:
+        members = wb.array_members(spec)
+        meta = {'inputs': [], 'formulas': {a: {'form': 'cse', 'deps': []} for a in members}, 'order': []}
+        for a, v in wb.spec_cells(spec).items():
+            if wb.is_formula(v):
+                meta['formulas'][a] = {'form': 'context', 'deps': []}
+        book = Book(ctx, spec, meta)
+        ctx.count('directed:context_books')
+        if book.failing:
+            ctx.count('context_book_reference_fails')
+            continue
+        # all orders over the formula cells and two members (constants cannot matter)
+        focus = [a for a in book.addresses if a in meta['formulas']][:6]
+        book.addresses = focus
+        book.orders(rng, 120)
+        book.addresses = wb.all_addresses(spec)
+        book.paths(rng, 4)
+
+
 def one_book(ctx, spec, meta, rng, max_sampled=120, n_rects=12, do_orders=True):
     book = Book(ctx, spec, meta)
     if book.failing:
@@ -296,6 +335,8 @@ def run(ctx):
     rng = ctx.rng
     if ctx.shard == 0:
         clip_edge_cases(ctx)
+    if ctx.shard == 1 % ctx.nshards:
+        context_books(ctx, rng)
     i = 0
     while not ctx.out_of_time():
         i += 1
